@@ -162,7 +162,7 @@ Definition c01_violation (c : case) : bool :=
   let n := length (c_cfg c) in
   let strict := case_wf c in
   negb (is_some (run_mon (amon_step strict) (amon_init n) es) &&
-        is_some (run_mon (smon_step strict) (smon_init n) es) &&
+        is_some (run_mon (smon_step (if strict then MClean else MLenient)) (smon_init n) es) &&
         one_answer_b es).
 
 (* C02 oracles: the discipline monitor (blocks are exactly their waiters' appends) and, for well-formed
@@ -186,7 +186,7 @@ Definition c02_violation (c : case) : bool :=
   let es := concat (c_obs c) in
   let n := length (c_cfg c) in
   if case_wf c then
-    negb (is_some (run_mon (smon_step true) (smon_init n) es) &&
+    negb (is_some (run_mon (smon_step MClean) (smon_init n) es) &&
           forallb (fun kb => good_block_red (fst kb) (snd kb)) (sends es))
   else false.
 
